@@ -10,6 +10,8 @@ open TFVerif.C06
 #print axioms split_cat_rows
 #print axioms split_by_slices_then_cat
 #print axioms toDense_cell
+#print axioms fillna_exact
+#print axioms met_fillna_exact
 #print axioms met_catRows_cells
 #print axioms met_catCols_cells
 #print axioms met_cat_single
